@@ -17,27 +17,48 @@ ASSUMPTIONS = [
     "usize arithmetic never exceeds 2^64 (tables whose sums exceed addressable memory are out of scope)",
 ]
 
-PROPS = {
-    "C06": dict(
-        modules=["OHVerif.Props.C06"],
-        groups=[("ff", 3000)],
-        deps=[("prim", 500)],
-        missing=[],
-    ),
-    "C07": dict(
-        modules=["OHVerif.Props.C07", "OHVerif.Lemmas.VecBackend"],
-        groups=[("prim", 3000)],
-        deps=[],
-        release=True,
-        missing=[],
-    ),
-    "C08": dict(
-        modules=["OHVerif.Props.C08"],
-        groups=[("ic", 3000)],
-        deps=[("ff", 500), ("prim", 500)],
-        missing=[],
-    ),
+import os as _os
+_LEAN = _os.path.join(_os.path.dirname(_os.path.abspath(__file__)), "lean")
+
+# theorem modules that are finished (complete, no sorry, reviewed); a property is claimed once one
+# of its modules is listed here
+READY = {
+    "OHVerif.Props.C06", "OHVerif.Props.C07", "OHVerif.Props.C08",
+    "OHVerif.Lemmas.VecBackend", "OHVerif.Lemmas.Kahn",
 }
+
+def _mods(*names):
+    return [n for n in names if n in READY and _os.path.exists(_os.path.join(_LEAN, n.replace(".", "/") + ".lean"))]
+
+_ADV = lambda g, n: [("adv1:" + g, n), ("adv2:" + g, n)]
+
+PROPS = {
+    "C01": dict(modules=_mods("OHVerif.Props.C01"), groups=[("oh", 3000), ("law", 600)], deps=[("ff", 500), ("ic", 300), ("hg", 300)],
+                missing=[]),
+    "C02": dict(modules=_mods("OHVerif.Props.C02"), groups=[("oh", 1500), ("law", 1500), ("lax.cat", 1500)], deps=[("ic", 300), ("ff", 300), ("hg", 300)]),
+    "C03": dict(modules=_mods("OHVerif.Props.C03"), groups=[("law", 4000)], deps=[("oh", 800)]),
+    "C04": dict(modules=_mods("OHVerif.Props.C04"), groups=[("law", 2500), ("oh", 1500), ("lax.cat", 1000)], deps=[("ff", 300)]),
+    "C05": dict(modules=_mods("OHVerif.Props.C05"), groups=[("oh", 1500), ("hg", 1500), ("lax.cat", 800), ("functor", 300), ("dynfunctor", 400), ("optic", 300)],
+                deps=[("ff", 400), ("ic", 400)]),
+    "C06": dict(modules=_mods("OHVerif.Props.C06"), groups=[("ff", 3000)], deps=[("prim", 500)]),
+    "C07": dict(modules=_mods("OHVerif.Props.C07", "OHVerif.Lemmas.VecBackend"), groups=[("prim", 3000)], deps=[], release=True),
+    "C08": dict(modules=_mods("OHVerif.Props.C08"), groups=[("ic", 3000)], deps=[("ff", 500), ("prim", 500)]),
+    "C09": dict(modules=_mods("OHVerif.Props.C09"), groups=[("lax.quot", 2000), ("lax.edit", 1000)], deps=[("ff", 400)]),
+    "C10": dict(modules=_mods("OHVerif.Props.C10"), groups=[("lax.cat", 2500), ("lawlax", 1500)], deps=[("oh", 400)]),
+    "C11": dict(modules=_mods("OHVerif.Props.C11"), groups=[("lax.edit", 3000)], deps=[]),
+    "C12": dict(modules=_mods("OHVerif.Props.C12"), groups=[("dynfunctor", 1500), ("functor", 800)], deps=[("oh", 400), ("ff", 300)]),
+    "C13": dict(modules=_mods("OHVerif.Props.C13"), groups=[("dynfunctor", 2500)], deps=[("lax.cat", 400)]),
+    "C14": dict(modules=_mods("OHVerif.Props.C14"), groups=[("optic", 1500)], deps=[("dynfunctor", 300), ("eval", 300)]),
+    "C15": dict(modules=_mods("OHVerif.Props.C15", "OHVerif.Lemmas.Kahn"), groups=[("graph", 3000)], deps=[("ic", 400), ("prim", 300)]),
+    "C16": dict(modules=_mods("OHVerif.Props.C16"), groups=[("eval", 3000)], deps=[("graph", 600)]),
+    "C17": dict(modules=_mods("OHVerif.Props.C17", "OHVerif.Props.C17Acyclic"), groups=[("oh", 2000), ("hg", 1500), ("graph", 800)], deps=[("prim", 300)], release=True),
+    "C18": dict(modules=_mods("OHVerif.Props.C18"), groups=[("graph", 3000)], deps=[("ic", 300)]),
+    "C19": dict(modules=_mods("OHVerif.Props.C19"), groups=[("var", 2500)], deps=[("dynfunctor", 300), ("lax.edit", 300)]),
+    "C20": dict(modules=_mods("OHVerif.Props.C20"),
+                groups=_ADV("oh", 800) + _ADV("law", 600) + _ADV("graph", 700) + _ADV("eval", 600) + _ADV("functor", 300) + _ADV("ff", 500) + _ADV("prim", 500) + _ADV("hg", 400) + _ADV("ic", 300),
+                deps=[]),
+}
+PROPS = {k: v for k, v in PROPS.items() if v["modules"]}
 
 LEVEL_TEXT = {
     "default": "Theorems about the Lean model are proved for all inputs (kernel-checked, axioms audited); the model is tied to the Rust by a differential correspondence check on every run. The claim is 'proof' for the model and 'differentially validated' for the tie; see evidence for what is proved and what is still covered by correspondence only.",
